@@ -182,6 +182,33 @@ namespace {
       }
       rd.reset();
     }
+    // second protocol: load_next_event() called directly, without asking has_next_event() first, until it throws
+    {
+      long nev2 = 0, npart2 = 0, invalid2 = 0;
+      try {
+        event_reader rd2(cfg, 0);
+        for (;;) {
+          event ev;
+          rd2.load_next_event(ev);
+          nev2++;
+          npart2 += (long)ev.get_particles().size();
+          if (!ev.is_valid()) invalid2++;
+          for (const auto & p : ev.get_particles())
+            if (!finite_particle(p)) nonfinite++;
+          if (nev2 >= 200000) {
+            outcome = "runaway";
+            break;
+          }
+        }
+      } catch (std::exception &) {
+        // the end of the stream (or a refused record) ends this protocol with an exception
+      }
+      if (4 * nev2 + 5 * npart2 > 4 * nev + 5 * npart) {
+        nev   = nev2;
+        npart = npart2;
+      }
+      invalid += invalid2;
+    }
     std::ostringstream o;
     o << "\"outcome\":\"" << outcome << "\",\"nev\":" << nev << ",\"npart\":" << npart << ",\"invalid\":" << invalid
       << ",\"nonfinite\":" << nonfinite << ",\"post_err\":" << post_err << ",\"what\":\"" << jesc(what) << "\"";
